@@ -111,6 +111,9 @@ class Spec:
     def affine(self):
         return all(FORMS[f][2] != "ifelse" for f in self.forms)
 
+    def regular(self):
+        return True
+
     def model(self):
         decls = [
             Decl("s", mods={"start": N(1)}), Decl("u", prefix="input"),
@@ -174,11 +177,21 @@ class FreeSpec:
     def unknowns(self):
         return ["a%d" % (i + 1) for i in range(self.k)]
 
+    def name(self, i):
+        return "a%d" % i if i > 0 else ("s" if i == 0 else "u")
+
+    def regular(self):
+        """Do the equations determine der(s) and the a_i uniquely for given (s, u)?"""
+        unk = ["der(s)"] + self.unknowns()
+        rows = self.rows()
+        sub = [{c: v for c, v in r.items() if c in unk} for r in rows]
+        return len(rows) == len(unk) and L.rank(sub) == len(unk)
+
     def equations(self):
         # not an alias form, so that the unknowns are not anchored at the derivative by an alias of their own
         eqs = [("eq", ("der", V("s")), B("+", B("*", N(2), V("a1")), V("u")))]
         for form, i, j in self.items:
-            eqs.append(POOL[form](V("a%d" % i), V("a%d" % j)))
+            eqs.append(POOL[form](V(self.name(i)), V(self.name(j))))
         return eqs
 
     def model(self):
@@ -192,7 +205,7 @@ class FreeSpec:
         return Model("M", decls, [eqs[i] for i in self.perm])
 
     def rows(self):
-        return [_lin_eq(e) for e in self.model().eqs]
+        return [_lin_eq(e) for e in self.equations()]
 
     def init_rows(self):
         return []
@@ -208,6 +221,32 @@ class FreeSpec:
                 raise ValueError("inconsistent system")
             env[piv] = -r.get(1, Fraction(0))
         return env
+
+
+def anchored_specs(tier):
+    """(F) affine systems that need not be square or regular: der(s) = 2 * a1 + u plus every set of 2..3 plain alias
+    equations a_i = +-w with w in {s, u, the other unknown} over two unknowns -- two unknowns tied to the same state
+    or input with consistent or contradictory signs, redundant and over-determining equations.  Only the exact
+    solution-set comparison of C14 applies to them."""
+    pool = []
+    for f in ("alias", "alias-neg"):
+        for i in (1, 2):
+            for j in (0, -1, 1, 2):
+                if j != i:
+                    pool.append((f, i, j))
+    out = []
+    for n in (2, 3):
+        for items in itertools.combinations(pool, n):
+            used = {i for _, i, _ in items} | {j for _, _, j in items if j > 0}
+            if used != {1, 2}:
+                continue
+            sp = FreeSpec(2, items, tuple(range(n + 1)))
+            if sp.regular():
+                continue  # family (D) has the regular ones
+            out.append(sp)
+            if tier == "thorough":
+                out.append(FreeSpec(2, items, tuple(reversed(range(n + 1)))))
+    return out
 
 
 def make_spec(key):
@@ -368,11 +407,19 @@ def compile_simplified(text, options):
         pre = (scalar_count(model.states) + scalar_count(model.alg_states), residual_len(model))
         model._vf_pre = pre
         model.check_balanced()
+        n_pre = len(cap.records)
         phase = "simplify"
         model.simplify(options)
         phase = "post"
         model.check_balanced()
         model._post_checks()
+        # An imbalance the model had before simplification, reported again unchanged afterwards, is not
+        # simplify() reporting a failure.
+        pre_gap = [_gap(r) for r in cap.records[:n_pre] if _gap(r) is not None]
+        kept = list(cap.records[n_pre:])
+        if pre_gap:
+            kept = [r for r in kept if _gap(r) is None or _gap(r) != pre_gap[-1]]
+        cap.records = kept
     except Exception as e:  # noqa: BLE001 -- "reports failure with an exception"
         err = e
         e._vf_phase = phase
@@ -380,6 +427,14 @@ def compile_simplified(text, options):
         log.removeHandler(cap)
         log.setLevel(old_level)
     return model, err, cap.records
+
+
+def _gap(message):
+    """unknowns - equations of a 'System is not balanced' warning, else None."""
+    import re
+
+    m = re.search(r"Number of states is (\d+), number of equations is (\d+)", message)
+    return int(m.group(1)) - int(m.group(2)) if m else None
 
 
 def scalar_count(vs):
